@@ -282,7 +282,14 @@ def norm_stmts(fn: ast.FunctionDef) -> List[str]:
                 out.append(t)
             elif isinstance(st, ast.For):
                 out.append(f"for {ast.unparse(st.target)} in {ast.unparse(st.iter)} {{ " + "; ".join(rend(st.body)) + " }")
-            elif isinstance(st, (ast.Try, ast.While, ast.With)):
+            elif isinstance(st, ast.Try):
+                t = "try { " + "; ".join(rend(st.body)) + " }"
+                for h in st.handlers:
+                    t += f" except {ast.unparse(h.type) if h.type else ''} {{ " + "; ".join(rend(h.body)) + " }"
+                if st.orelse or st.finalbody:
+                    raise Unrecognised(f"{fn.name}: try with else/finally")
+                out.append(t)
+            elif isinstance(st, (ast.While, ast.With)):
                 raise Unrecognised(f"{fn.name}: compound statement {type(st).__name__}")
             else:
                 out.append(" ".join(ast.unparse(st).split()))
@@ -300,6 +307,9 @@ CLASS_METHODS = [
     (SW, "IOSoftware", ["add_connection", "terminate_connection", "send", "receive"]),
     (HOST, "HostNode", ["receive_frame"]),
     ("simulator/network/hardware/nodes/network/router.py", "Router", ["check_send_frame_to_session_manager"]),
+    ("simulator/system/services/web_server/web_server.py", "WebServer",
+     ["receive", "_process_http_request", "_handle_get_request", "_establish_db_connection"]),
+    ("simulator/system/applications/web_browser.py", "WebBrowser", ["receive", "get_webpage"]),
 ]
 
 
@@ -339,6 +349,13 @@ def emit() -> str:
     L.append("def methodBodies : List (String × List String) := [\n  " + ",\n  ".join(rows) + "]")
     L.append("")
     ports = port_lookup()
+    # HTTP status codes the web model uses
+    http = class_def(parse("simulator/network/protocols/http.py"), "HttpStatusCode")
+    codes = {st.targets[0].id: st.value.value for st in http.body
+             if isinstance(st, ast.Assign) and isinstance(st.value, ast.Constant) and isinstance(st.value.value, int)}
+    L.append("/-- `HttpStatusCode` members and values -/")
+    L.append("def httpStatusCodes : List (String × Nat) := [" + ", ".join(f'("{k}", {v})' for k, v in codes.items()) + "]")
+    L.append(f"def portHTTP : Nat := {ports['HTTP']}")
     L.append(f"def portDNS : Nat := {ports['DNS']}")
     L.append(f"def portNTP : Nat := {ports['NTP']}")
     io = class_def(parse(SW), "IOSoftware")
